@@ -5,8 +5,14 @@ strategy_worker  (3) the kernel's own prediction strategy vs DefaultPredictionSt
                      (a second ExactGP whose kernel is a thin dense wrapper) and vs the Gaussian conditional computed here
 objective_worker (4) SGPR training objective * N vs the Titsias collapsed bound computed densely
 refine_worker    (5) error table |SKI - base| on three grid sizes
+gridsm_worker    (6) kernel-level histories of the grid kernels (Structured.tla part "gridsm")
+access_worker    (7) every access form (full / diag=True / lazy diagonal / evaluated diagonal / MVN.variance) of every structured family x mode x
+                     setting against the projection of the dense meaning (Structured.tla part "access")
+gridpred_worker  (8) model-level predictions of a KISS-GP exact GP on a data-driven grid, test extent in every position relative to the training
+                     extent, against the dense conditional of covar_module(cat(train, test)).to_dense() (Structured.tla part "gridpred")
 """
 import math
+import os
 from contextlib import ExitStack
 
 from harness import core
@@ -1074,6 +1080,302 @@ def _gridsm_case(torch, gpytorch, c):
                 return fail(r, sig(k, "/vs-fresh"), "%s: step %d: differs from a fresh kernel with the same grid and mode: %s" % (desc, k, why))
     if c["seed"] % 211 == 0:
         r["sample"] = dict(case=desc)
+    return r
+
+
+# ------------------------------------------------------------------------------------------------
+# (7) access forms (Structured.tla part "access"): every way of reading a structured kernel is a projection of ONE dense meaning
+ACCESS_FORMS = ("full", "diagarg", "lazydiag", "evaldiag", "variance")
+
+
+def read_form(torch, gpytorch, kern, x1, x2, form):
+    """the value the access form `form` of Structured.tla yields on the real kernel"""
+    if form == "full":
+        return kern(x1, x2).to_dense()
+    if form == "diagarg":
+        return kern(x1, x2, diag=True)
+    if form == "lazydiag":
+        return kern(x1, x2).diagonal(dim1=-1, dim2=-2)
+    if form == "evaldiag":
+        return kern(x1, x2).evaluate_kernel().diagonal(dim1=-1, dim2=-2)
+    if form == "variance":
+        lazy = kern(x1)
+        return gpytorch.distributions.MultivariateNormal(torch.zeros(lazy.shape[-1], dtype=torch.float64), lazy).variance
+    raise core.Machinery("unknown access form %r" % form)
+
+
+def project_form(torch, gpytorch, want, form):
+    if form == "full":
+        return want
+    dg = want.diagonal(dim1=-1, dim2=-2)
+    if form == "variance":          # MultivariateNormal.variance rounds up to settings.min_variance
+        dg = dg.clamp_min(gpytorch.settings.min_variance.value(torch.float64))
+    return dg
+
+
+def access_build(torch, gpytorch, fam, mode, on, same, g):
+    """-> (kernel in the given mode, x1, x2, want(corrected) -> dense meaning (called AFTER the kernel has been read), setting context)"""
+    D = torch.float64
+    K = gpytorch.kernels
+    settings = gpytorch.settings
+    n, d, t = 5, 2, 2
+
+    def rx(k, dd=d):
+        return torch.rand(k, dd, generator=g, dtype=D) * 2 - 1
+    x1 = rx(n)
+    x2 = x1 if same else rx(n)
+    ctx = None
+    if fam in ("nystrom", "mtask-nystrom"):
+        b = K.ScaleKernel(base_kernel(torch, gpytorch, "rbf" if int(torch.randint(0, 2, (1,), generator=g)) else "matern25", d, g, ard=True)).to(D)
+        b.outputscale = torch.tensor(1.3, dtype=D)
+        Z = rx(3)
+        kern = ipk = K.InducingPointKernel(b, inducing_points=Z.clone(), likelihood=gpytorch.likelihoods.GaussianLikelihood().to(D)).to(D)
+        Q = b(x1, Z).to_dense() @ torch.linalg.solve(b(Z, Z).to_dense(), b(Z, x2).to_dense())
+        gap = (b(x1, x2).to_dense().diagonal() - Q.diagonal()).clamp_min(0)
+        B = None
+        if fam == "mtask-nystrom":
+            kern = K.MultitaskKernel(ipk, num_tasks=t, rank=1).to(D)
+            _seed_index_kernel(torch, kern.task_covar_module, g)
+            B = _task_matrix(torch, kern.task_covar_module)
+        if float(torch.linalg.cond(b(Z, Z).to_dense())) > 1e6 or (same and float(gap.max()) < 1e-3):
+            return None
+
+        def want(corrected):
+            M = Q + torch.diag_embed(gap) if corrected else Q
+            return M if B is None else torch.einsum("ij,ab->iajb", M, B).reshape(n * t, n * t)
+        ctx = settings.sgpr_diagonal_correction(bool(on))
+    elif fam in ("ski", "ski-dyn"):
+        sizes = [8, 9]
+        b = base_kernel(torch, gpytorch, "rbf", d, g, ard=True)
+        if fam == "ski":
+            inner = precise_grid(torch, gpytorch, K.GridInterpolationKernel(b, grid_size=sizes, grid_bounds=[(-1.2, 1.2), (-1.3, 1.4)]).to(D))
+        else:
+            inner = K.GridInterpolationKernel(b, grid_size=sizes, num_dims=d).to(D)
+        kern = K.ScaleKernel(inner).to(D)
+        kern.outputscale = torch.tensor(1.7, dtype=D)
+        osc = float(kern.outputscale)
+
+        def want(corrected):
+            return ski_dense(torch, b, inner.grid, x1, x2, osc)
+        ctx = settings.use_toeplitz(bool(on))
+    elif fam == "grid":
+        b = base_kernel(torch, gpytorch, "rbf", d, g, ard=True)
+        grid = [torch.linspace(-0.5, 0.7, 3, dtype=D), torch.linspace(-1.0, 0.4, 4, dtype=D)]
+        kern = K.GridKernel(b, grid=grid).to(D)
+        if same:          # the structured path: on the kernel's own grid
+            x1 = x2 = kern.full_grid.clone()
+
+        def want(corrected):
+            return product_of_1d(torch, b, x1, x2) if same else b(x1, x2).to_dense()
+        ctx = settings.use_toeplitz(bool(on))
+    elif fam in ("mtask", "lcm"):
+        bases = [base_kernel(torch, gpytorch, nm, d, g, ard=True) for nm in (["rbf"] if fam == "mtask" else ["rbf", "matern15"])]
+        kern = (K.MultitaskKernel(bases[0], num_tasks=t, rank=1) if fam == "mtask" else K.LCMKernel(bases, num_tasks=t, rank=1)).to(D)
+        mts = [kern] if fam == "mtask" else list(kern.covar_module_list)
+        for mt in mts:
+            _seed_index_kernel(torch, mt.task_covar_module, g)
+
+        def want(corrected):
+            return sum(torch.einsum("ij,ab->iajb", b(x1, x2).to_dense(), _task_matrix(torch, mt.task_covar_module)).reshape(n * t, n * t) for b, mt in zip(bases, mts))
+    elif fam in ("index", "index-product"):
+        t3 = 3
+        i1 = torch.randint(0, t3, (n, 1), generator=g)
+        i2 = i1 if same else torch.randint(0, t3, (n, 1), generator=g)
+        if fam == "index":
+            kern = ik = K.IndexKernel(num_tasks=t3, rank=1).to(D)
+            z1, z2 = i1, i2
+            b = None
+        else:
+            b = base_kernel(torch, gpytorch, "rbf", d, g, active_dims=tuple(range(d)))
+            ik = K.IndexKernel(num_tasks=t3, rank=1, active_dims=(d,)).to(D)
+            kern = b * ik
+            z1 = torch.cat([x1, i1.to(D)], -1)
+            z2 = z1 if same else torch.cat([x2, i2.to(D)], -1)
+        _seed_index_kernel(torch, ik, g)
+        xa, xb = x1, x2
+
+        def want(corrected):
+            Bm = _task_matrix(torch, ik)[i1.squeeze(-1)][:, i2.squeeze(-1)]
+            return Bm if b is None else b(xa, xb).to_dense() * Bm
+        x1, x2 = z1, z2
+    elif fam == "rff":
+        ns = 2 if int(torch.randint(0, 2, (1,), generator=g)) else 6          # fewer / more features than points
+        inner = K.RFFKernel(num_samples=ns, num_dims=d).to(D)
+        inner.randn_weights = torch.randn(d, ns, generator=g, dtype=D)
+        inner.lengthscale = 0.8
+        kern = K.ScaleKernel(inner).to(D)
+        kern.outputscale = torch.tensor(0.6, dtype=D)
+        osc = float(kern.outputscale)
+
+        def want(corrected):
+            def phi(x):
+                a = x @ (inner.randn_weights / inner.lengthscale.transpose(-1, -2))
+                return torch.cat([a.cos(), a.sin()], -1)
+            return osc * phi(x1) @ phi(x2).T / ns
+    else:
+        raise core.Machinery("unknown access family %r" % fam)
+    kern.train(mode == "train")
+    return kern, x1, x2, want, ctx
+
+
+def access_worker(item):
+    """item["cases"]: groups dict(fam, mode, on, same, setting, forms=[dict(form, proj, corrected, route)], seed): one kernel instance per group,
+    every form of the group read from it and compared with the projection the spec names of the dense meaning the spec names"""
+    torch, gpytorch = _imports()
+    out = []
+    for c in item["cases"]:
+        fam, mode, on, same = c["fam"], c["mode"], bool(c["on"]), bool(c["same"])
+        cellname = "%s/%s%s/%s" % (fam, mode, "" if c["setting"] == "none" else ("-%s-%s" % (c["setting"], "on" if on else "off")), "same" if same else "cross")
+        built = None
+        for k in range(5):          # (an ill-conditioned Kzz / a vanishing gap: next seeded instance)
+            g = gen(torch, c["seed"] + 7919 * k)
+            with torch.no_grad():
+                built = access_build(torch, gpytorch, fam, mode, on, same, g)
+            if built is not None:
+                break
+        for f in c["forms"]:
+            form = f["form"]
+            r = res_cell(["access", fam, mode, int(on), int(same), form], "C09/access/%s/%s" % (cellname, form), dict(c, forms=[f], section="access"))
+            out.append(r)
+            if built is None:
+                r.update(nontrivial=False, n=0)
+                continue
+            kern, x1, x2, want, ctx = built
+            desc = "%s kernel, %s mode%s, %s, read as %s" % (fam, mode, "" if c["setting"] == "none" else ", %s(%s)" % (c["setting"], on), "x1 is x2" if same else "x1 != x2",
+                                                          {"full": "kernel(x1, x2).to_dense()", "diagarg": "kernel(x1, x2, diag=True)", "lazydiag": "kernel(x1, x2).diagonal() (lazy)",
+                                                           "evaldiag": "kernel(x1, x2).evaluate_kernel().diagonal()", "variance": "MultivariateNormal(0, kernel(x)).variance"}[form])
+            if (f["proj"] == "full") != (form == "full"):
+                raise core.Machinery("projection %r for form %r" % (f["proj"], form))
+            with torch.no_grad(), ExitStack() as st:
+                if ctx is not None:
+                    st.enter_context(ctx)
+                ok, got = core.guarded(lambda: read_form(torch, gpytorch, kern, x1, x2, form))
+                if not ok:
+                    fail(r, r["sig"] + "/raises", "%s: %s" % (desc, got))
+                    continue
+                w = project_form(torch, gpytorch, want(bool(f["corrected"])), form)
+            ok, why = core.close(got, w, 1e-8, 1e-10)
+            if not ok:
+                fail(r, r["sig"], "%s: differs from %s of the dense meaning (%s): %s" % (
+                    desc, "the whole matrix" if form == "full" else "the diagonal",
+                    "Kxz Kzz^-1 Kzx + diag(Kxx - Qxx): eval mode, correction on, x1 = x2" if f["corrected"] else
+                    ("Kxz Kzz^-1 Kzx, NO diagonal correction" if fam in ("nystrom", "mtask-nystrom") else "the explicit dense formula"), why))
+    return out
+
+
+# ------------------------------------------------------------------------------------------------
+# (8) model-level predictions on a data-driven grid (Structured.tla part "gridpred")
+GP_SIZES = {1: ([10], [13], [16]), 2: ([8, 9], [9, 8], [8, 8])}
+GP_SLIVER = (1e-4, 0.02, 0.2, 0.6)          # "sl": distance from the training extreme, in grid cells (cell = extent / (grid_size - 4.02))
+
+
+def gridpred_worker(item):
+    torch, gpytorch = _imports()
+    return [_gridpred_case(torch, gpytorch, c) for c in item["cases"]]
+
+
+def _gridpred_case(torch, gpytorch, c):
+    D = torch.float64
+    K = gpytorch.kernels
+    settings = gpytorch.settings
+    d, fpv, toep, scale, hist = c["d"], bool(c["fpv"]), bool(c["toep"]), bool(c["scale"]), c["hist"]
+    g = gen(torch, c["seed"])
+    sizes = list(GP_SIZES[d][int(torch.randint(0, 3, (1,), generator=g))])
+    lastpos = [st for st in hist if st["a"] == "predict"][-1]["pos"]
+    clean = bool(hist[-1]["clean"])
+    desc = "KISS-GP exact GP, data-driven grid %s, d=%d fast_pred_var=%s use_toeplitz=%s scale=%s history=%s" % (
+        sizes, d, fpv, toep, scale, " > ".join("predict(test extent: lower %s, upper %s)" % tuple(st["pos"]) if st["a"] == "predict" else "train();eval()" for st in hist))
+    # three classes: a test extent outside the training extent since the last strategy reset (known finding C03/ext/gridi), a test extent that shares
+    # exactly ONE extreme with the training extent (the other end inside), everything else inside
+    cls = "test-outside-training-extent" if not clean else ("test-shares-one-training-extreme" if (lastpos[0] == "eq") != (lastpos[1] == "eq") else "test-inside-training-extent")
+    area = "C09/gridpred/%s/lower-%s-upper-%s" % (cls, lastpos[0], lastpos[1])
+    r = res_cell(["gridpred", d, int(fpv), int(toep), int(scale), [[st["a"]] + list(st.get("pos", [])) for st in hist]], area, dict(c, section="gridpred"),
+                 nontrivial=any(p != "in" for p in lastpos))
+    r["clean"] = clean
+    n, ns = (12, 5) if d == 1 else (14, 5)
+    a = -1.0 + 0.5 * torch.rand(d, generator=g, dtype=D)
+    b = 0.5 + 0.7 * torch.rand(d, generator=g, dtype=D)
+    X = a + (b - a) * torch.rand(n, d, generator=g, dtype=D)
+    X[0], X[1] = a, b
+    y = torch.sin(3 * X.sum(-1)) + 0.1 * torch.randn(n, generator=g, dtype=D)
+    base = base_kernel(torch, gpytorch, "rbf", d, g, ard=(d > 1))
+    inner = K.GridInterpolationKernel(base, grid_size=sizes, num_dims=d).to(D)
+    top = inner
+    if scale:
+        top = K.ScaleKernel(inner).to(D)
+        with torch.no_grad():
+            top.outputscale = torch.tensor(1.4, dtype=D)
+    model, lik = make_gp(torch, gpytorch, X, y, top, 0.2, 0.3)
+    for p in model.parameters():
+        p.requires_grad_(False)
+    model.eval()
+    lik.eval()
+    noise, mc = float(lik.noise), float(model.mean_module.constant)
+    osc = float(top.outputscale) if scale else None
+
+    def extreme(pos, side, i):
+        """coordinate of the test extreme in dimension i for the spec's position class"""
+        L = float(b[i] - a[i])
+        cell = L / (sizes[i] - 4.02)
+        u = float(torch.rand(1, generator=g, dtype=D))
+        off = {"in": (0.15 + 0.25 * u) * L, "sl": GP_SLIVER[int(4 * u) % 4] * cell, "eq": 0.0, "out": -(0.08 + 0.2 * u) * L}[pos]
+        return float(a[i]) + off if side == 0 else float(b[i]) - off
+
+    with torch.no_grad():
+        for k, st in enumerate(hist):
+            if st["a"] == "reset":
+                model.train()
+                lik.train()
+                model.eval()
+                lik.eval()
+                continue
+            pl, pu = st["pos"]
+            # dimension 0 takes the spec's (lower, upper) positions, dimension 1 the same pair with the sides exchanged
+            lo = torch.tensor([extreme((pl, pu)[i % 2], 0, i) for i in range(d)], dtype=D)
+            hi = torch.tensor([extreme((pu, pl)[i % 2], 1, i) for i in range(d)], dtype=D)
+            Xs = lo + (hi - lo) * torch.rand(ns, d, generator=g, dtype=D)
+            Xs[0], Xs[1] = lo, hi
+            with settings.fast_pred_var(fpv), settings.use_toeplitz(toep):
+                ok, got = core.guarded(lambda: (lambda post: (post.mean.clone(), post.covariance_matrix.clone(), post.variance.clone()))(model(Xs)))
+            last = k == len(hist) - 1
+            if not ok:
+                if last:
+                    fail(r, r["sig"] + "/raises", "%s: step %d: %s" % (desc, k, got))
+                    break
+                if clean:
+                    return fail(r, r["sig"] + "/earlier-step-raises", "%s: step %d: %s" % (desc, k, got))
+                r.update(nontrivial=False)
+                return r
+            if not last:
+                continue
+            # the dense conditional of the approximate matrix of the joint inputs, read from the model's own covar_module after the prediction
+            Z = torch.cat([X, Xs], 0)
+            with settings.use_toeplitz(toep):
+                J = top(Z).to_dense()
+            wm, wc, cond = _conditional(torch, J[:n, :n], J[n:, :n], J[n:, n:], noise, y, torch.full((n,), mc, dtype=D), torch.full((ns,), mc, dtype=D))
+            if cond > 1e4:
+                r.update(nontrivial=False, n=0)
+                return r
+            cs = float(J.abs().max())
+            msc = max(1.0, float(y.abs().max()), float(wm.abs().max()))
+            if clean:
+                # ... which is W K_UU W^T on the grid the kernel has NOW (the meaning of the interpolated kernel)
+                ok, why = core.close(J, ski_dense(torch, base, inner.grid, Z, Z, osc), 1e-8, 1e-10)
+                if not ok:
+                    fail(r, r["sig"] + "/joint-matrix", "%s: covar_module(cat(train, test)) differs from W K_UU W^T on the kernel's current grid: %s" % (desc, why))
+            rtol = 1e-6 if fpv else 1e-7
+            for what, gq, wq, sc in (("mean", got[0], wm, msc), ("covariance", got[1], wc, cs), ("variance", got[2], wc.diagonal().clamp_min(0), cs)):
+                e = float((gq - wq).abs().max()) / sc if gq.shape == wq.shape else float("inf")
+                r.setdefault("errs", {})[what] = e
+                if not e <= rtol:
+                    fail(r, r["sig"] + "/" + what, "%s: predictive %s differs from the dense conditional of covar_module(cat(train, test)).to_dense(): max|diff| = %.3e "
+                         "(scale of the prior %.3e, tol %.0e relative to it); last test inputs span %s .. %s, training inputs %s .. %s" % (
+                             desc, what, e * sc, sc, rtol, lo.tolist(), hi.tolist(), a.tolist(), b.tolist()))
+    if not clean and not r["ok"] and os.environ.get("VERIF_C09_OUTSIDE") != "violation":
+        # the class of known finding C03/ext/gridi/strategy-kept-across-update_grid (decided by C03): recorded, not a verdict of this check
+        r.update(ok=True, outside_deviates=r["sig"], outside_detail=r["detail"][:400], sig=area, detail="")
+    if c["seed"] % 53 == 0:
+        r["sample"] = dict(case=desc, errs=r.get("errs"))
     return r
 
 
